@@ -55,6 +55,8 @@ def generate(r):
     lines.append("fn incr(o) { o.r = o.r + 1; o.r += 1; o.r }")
     lines.append("fn garbage(k) { let acc = []; for i in k.times() { acc.push('g${i}' + 'x'); } acc.len() }")
     lines.append("fn classes(k) { for i in k.times() { class G { init() { self.p = 1; self.q = 2; self.r = 3; } m() { 'G' } n(x) { x } } G(); } k }")
+    # a second module with call sites of its own (every module numbers its cache slots from zero)
+    lines.insert(0, "import self.peer;")
     header = len(lines)
 
     def receiver():
@@ -82,7 +84,7 @@ def generate(r):
             lines.append("garbage(%d);" % r.choice([5, 50, 300]))
         if r.random() < 0.25:
             lines.append("classes(%d);" % r.choice([1, 3, 8]))
-        site = r.choice(["m", "p", "q", "n", "mix", "bound", "incr"])
+        site = r.choice(["m", "p", "q", "n", "mix", "bound", "incr", "peer", "peer", "launch", "launch"])
         if site == "m":
             if tag is None:
                 lines.append("try { print(callm(%s)); } catch e: Error { print('no m'); }" % expr)
@@ -107,12 +109,23 @@ def generate(r):
         elif site == "incr":
             lines.append("print(incr(%s));" % expr)
             expect.append(str(fields["r"] + 2))
+        elif site == "peer":
+            # the same receiver through the other module's sites
+            lines.append("print(peer.getr(%s), peer.getp(%s));" % (expr, expr))
+            expect.append("%d %d" % (fields["r"], fields["p"]))
+        elif site == "launch":
+            # a function of the other module is launched, then a site of this module runs in the same frame with no
+            # call or return in between
+            lines.append("if true { let o = %s; let ch = chan(1); launch peer.signal(ch, o); print(o.p, o.r, <- ch); }" % expr)
+            expect.append("%d %d %d" % (fields["p"], fields["r"], fields["r"]))
         else:
             if tag is None:
                 continue
             lines.append("if true { let o = %s; print(callm(o), getp(o), calln(o, 1)); }" % expr)
             expect.append("%s %d %d" % (tag, fields["p"], 1 + fields["p"] + n_extra))
-    program = workloads.program("classes", lines)
+    peer = ("export fn getr(o) { o.r }\nexport fn getp(o) { o.p }\nexport fn callm(o) { o.m() }\n"
+            "export fn signal(ch, o) { ch <- o.r; }\n")
+    program = workloads.program("classes", lines, {"/sim/peer.lay": peer})
     program["header"] = header
     return program, expect
 
@@ -147,20 +160,33 @@ class C13(Check):
         rng = core.rng_for(ctx.seed, "c13", index)
         program, expect = generate(rng)
         gc = schedules.random_schedule(rng, self.startup, self.startup + 2000)
-        return {"program": program, "expect": expect, "gc": gc, "arena": schedules.random_policy(rng, 0.7)}
+        # a third of the programs are entered line by line at the prompt: every entry is compiled separately into the
+        # same module and keeps extending that module's cache
+        return {"program": program, "expect": expect, "gc": gc, "arena": schedules.random_policy(rng, 0.7),
+                "repl": rng.random() < 0.33}
 
     def judge(self, ctx, case):
         program = case["program"]
         outcome = {"jobs": 0, "violations": [], "signatures": [], "counters": {}}
         counters = outcome["counters"]
         base = {"main": program["main"], "files": program["files"], "gc": case["gc"], "arena": case["arena"]}
+        if case.get("repl"):
+            base["mode"] = "repl"
+            base["stdin"] = [line + "\n" for line in program["lines"]]
+            counters["programs_entered_at_the_prompt"] = 1
         cached = ctx.run(dict(base, id="cached"))
         missed = ctx.run(dict(base, id="forced-miss", force_miss=True))
+        if case.get("repl"):
+            for result in (cached, missed):
+                result["stdout"] = result["stdout"].replace("laythe:> ", "")
         outcome["jobs"] = 2
         problems = []
         fail_cached, fail_missed = core.host_failure(cached), core.host_failure(missed)
         if fail_missed:
             counters["forced_miss_run_failed"] = 1
+            if case.get("expect") is not None:
+                # the program is valid by construction: a host failure is a failure of the sites whatever the switch says
+                problems.append(("a class program ended in a host failure", fail_missed))
         if fail_cached and not fail_missed:
             problems.append(("host failure with caches enabled but not with every lookup forced to miss", fail_cached))
         elif not fail_cached and not fail_missed:
